@@ -339,18 +339,53 @@ fn main() {
         for e in res { ctx.violation("binary_differs_from_inprocess", e.clone(), json!({"kind":"proc"}), e); }
     }
 
+    // long sections: 8 .. 1000 components per section in three arrangements - the named variables at the front, at the
+    // far end, and spread out between literal and variable fillers; every assignment, both formats. Placement must not
+    // depend on how many components precede a component.
+    let mut s_long = Stats::default();
+    {
+        let lens: &[usize] = if quick { &[8, 16, 17, 32, 33, 64, 65, 128, 129, 256, 257, 1000] } else { &[8, 15, 16, 17, 31, 32, 33, 63, 64, 65, 100, 127, 128, 129, 200, 255, 256, 257, 300, 511, 512, 513, 1000, 1023, 1024, 1025, 2000, 4097] };
+        let fill_core = |k: usize| -> RComp { match k % 5 { 0 => Str(format!("c{k}")), 1 => V(RVar::BumpedBranch), 2 => Str(format!("0{k}x")), 3 => V(RVar::Custom("k".into())), _ => Str("x-y".into()) } };
+        let fill_int = |k: usize| -> RComp { match k % 3 { 0 => UInt(k as u64), 1 => Str(format!("t{k}")), _ => V(RVar::Distance) } };
+        let fill_extra = |k: usize| -> RComp { match k % 4 { 0 => Str(format!("e{k}")), 1 => UInt(k as u64), 2 => V(RVar::Dirty), _ => V(RVar::BumpedBranch) } };
+        let fill_build = |k: usize| -> RComp { match k % 4 { 0 => Str(format!("B-{k}")), 1 => UInt(k as u64), 2 => V(RVar::Distance), _ => V(RVar::BumpedCommitHashShort) } };
+        let place = |n: usize, named: &[RComp], arrangement: usize, fill: &dyn Fn(usize) -> RComp| -> Vec<RComp> {
+            let f = n.saturating_sub(named.len());
+            let mut out = vec![];
+            match arrangement {
+                0 => { out.extend(named.iter().cloned()); out.extend((0..f).map(fill)); }
+                1 => { out.extend((0..f).map(fill)); out.extend(named.iter().cloned()); }
+                _ => { let gap = f / named.len().max(1); let mut k = 0; for c in named { out.push(c.clone()); for _ in 0..gap { out.push(fill(k)); k += 1; } } while k < f { out.push(fill(k)); k += 1; } }
+            }
+            out
+        };
+        let schemas: Vec<RSchema> = lens.iter().flat_map(|&n| (0..3usize).flat_map(move |arr| (0..3usize).map(move |which| (n, arr, which)))).map(|(n, arr, which)| {
+            let core_named = [V(RVar::Major), V(RVar::Minor), V(RVar::Patch)];
+            let extra_named = [V(RVar::Epoch), V(RVar::PreRelease), V(RVar::Post), V(RVar::Dev)];
+            let short_core = vec![V(RVar::Major), V(RVar::Minor), V(RVar::Patch)];
+            match which {
+                // non-integer fillers in the core: major.minor.patch are the named variables wherever they stand
+                0 => RSchema { core: place(n, &core_named, arr, &fill_core), extra_core: vec![V(RVar::PreRelease)], build: vec![] },
+                // integer-valued fillers in the core: the *first three* integer-valued components are the release
+                1 => RSchema { core: place(n, &core_named, arr, &fill_int), extra_core: place(n, &extra_named, arr, &fill_extra), build: vec![] },
+                _ => RSchema { core: short_core, extra_core: place(n, &extra_named, arr, &fill_extra), build: place(n, &[V(RVar::BumpedBranch)], arr, &fill_build) },
+            }
+        }).collect();
+        s_long = schemas.par_iter().map(|sc| { let mut st = Stats::default(); st.inc("schemas"); st.inc("long_section_schemas"); for (name, v) in &asg { judge(&ctx, sc, name, v, &mut st); } st }).reduce(Stats::default, Stats::merge);
+    }
+
     let (d1, _) = run_space(2, 1, 1);
     let (d2, _) = run_space(2, 1, 1);
     if d1.digest != d2.digest { machinery_error("determinism replay diverged"); }
 
-    let all = s1.clone().merge(s2.clone()).merge(s3.clone()).merge(s4.clone()).merge(s_wide).merge(s_grid).merge(s_ts).merge(s_paths);
+    let all = s1.clone().merge(s2.clone()).merge(s3.clone()).merge(s4.clone()).merge(s_wide).merge(s_grid).merge(s_ts).merge(s_paths).merge(s_long);
     let mut cov = Coverage::default();
     cov.states = all.get("schemas") * asg.len() as u64 + s3.get("tier_cases") + all.get("grid_values") * 55;
     cov.transitions = all.get("conversions") + s3.get("tier_cli_runs");
     cov.evaluations = all.get("conversions") + s3.get("tier_cli_runs") + s3.get("tier_cases") + s4.get("cli_conformance_cases");
     cov.traces_validated = cov.evaluations;
     cov.distinct_nontrivial = all.get("schemas");
-    cov.rule = format!("valid schemas generated as programs: core sequences over {} components (Major/Minor/Patch order+uniqueness respected, uint/str literals incl. multi-identifier, empty and zero-padded ones, Distance, BumpedBranch, ts, custom), extra_core over {} (Epoch/PreRelease/Post/Dev once each, literals, Dirty, BumpedBranch), build over {}; bounds (core,extra,build) = {} product sizes {n1}+{n2}; each x {} variable assignments x 2 formats, SemVer::from / PEP440::from compared by full string equality with R-REN; the 16 timestamp patterns x 4 placements x 19 instants (New-Year days whose ISO week belongs to the other year, leap days, month ends, the epoch); 29 custom-variable paths (keys with '/', '~', blanks, digits, non-ASCII; paths into arrays, objects, null and nothing) x 4 placements; smart presets: 6 presets x dirty x distance x pre x post x dev tier table at schema_with_zerv and through the CLI. dense numeric grid: {} values (0..=300, neighbourhoods of 2^8..2^64 and 10^2..10^20 up to u64::MAX) in each numeric variable in turn, all at once, as uint literal, custom number and branch segment x 5 schemas. non-trivial = distinct non-empty schemas", all.get("grid_values"), core_alpha.len(), extra_alpha.len(), build_alpha.len(), if quick { "(3,2,1)" } else { "(4,2,1) and (3,3,2)" }, asg.len());
+    cov.rule = format!("valid schemas generated as programs: core sequences over {} components (Major/Minor/Patch order+uniqueness respected, uint/str literals incl. multi-identifier, empty and zero-padded ones, Distance, BumpedBranch, ts, custom), extra_core over {} (Epoch/PreRelease/Post/Dev once each, literals, Dirty, BumpedBranch), build over {}; bounds (core,extra,build) = {} product sizes {n1}+{n2}; each x {} variable assignments x 2 formats, SemVer::from / PEP440::from compared by full string equality with R-REN; sections of 8 .. 1000 (thorough 4097) components, named variables first / last / spread between literal and variable fillers, integer-valued and non-integer fillers in the core; the 16 timestamp patterns x 4 placements x 19 instants (New-Year days whose ISO week belongs to the other year, leap days, month ends, the epoch); 29 custom-variable paths (keys with '/', '~', blanks, digits, non-ASCII; paths into arrays, objects, null and nothing) x 4 placements; smart presets: 6 presets x dirty x distance x pre x post x dev tier table at schema_with_zerv and through the CLI. dense numeric grid: {} values (0..=300, neighbourhoods of 2^8..2^64 and 10^2..10^20 up to u64::MAX) in each numeric variable in turn, all at once, as uint literal, custom number and branch segment x 5 schemas. non-trivial = distinct non-empty schemas", all.get("grid_values"), core_alpha.len(), extra_alpha.len(), build_alpha.len(), if quick { "(3,2,1)" } else { "(4,2,1) and (3,3,2)" }, asg.len());
     cov.exhaustive = true;
     cov.samples = vec![json!({"core":"Major,str(\"1.2\"),Patch","extra_core":"PreRelease,Dirty","build":"str(\"B-1\")","vars":"all_set"}), json!({"preset":"calver","dirty":false,"distance":0,"post":2}), json!({"core":"str(\"007\"),ts(YYYY)","extra_core":"Epoch","build":"","vars":"zeros"})];
     cov.set("clause_counts", all.to_json());
